@@ -1,19 +1,29 @@
 /-
-  Model of `util.SafeCmdExecution` (internal/util/exec.go:12-38) and of its callers
-  `CmdSensor.GetValue` (internal/sensors/cmd.go) and `CmdFan.GetPwm/GetRpm/SetPwm`
-  (internal/fans/cmd.go). Core Lean only.
+  Model of `util.SafeCmdExecution` (internal/util/exec.go, after the fixes 8c639fb "do not panic when an
+  external command cannot be started" and 4d252cb "bound external commands whose descendants keep the
+  output pipe open") and of its callers `CmdSensor.GetValue` (internal/sensors/cmd.go) and
+  `CmdFan.GetPwm/GetRpm/SetPwm` (internal/fans/cmd.go). Core Lean only.
 
   The permission test of THIS call is an input (`PermOut`, produced by `checkPerm`), the external
   process is an abstract behaviour `Beh`, the deadline is `timeout` (ms). Model time: a call that
   returns "before the deadline" is bounded by `timeout`; everything else is stated explicitly.
 
-  Go semantics used (os/exec of the pinned toolchain go1.23, `cmd.WaitDelay == 0`):
+  Go semantics used (os/exec of the pinned toolchain go1.23, `cmd.WaitDelay = cmdWaitDelay = 200 ms`):
   * `cmd.Output()` = Start + Wait; a Start failure (`*fs.PathError` from fork/exec: ENOEXEC, EACCES,
-    ENOENT) is returned as is – it is NOT an `*exec.ExitError`;
-  * `Wait` returns only after the goroutine copying the child's stdout has seen EOF, i.e. after EVERY
-    holder of the pipe's write end (the child and whoever inherited it) has closed it; with
-    `WaitDelay == 0` the deadline only kills the direct child, it never closes the pipe;
+    ENOENT) is returned as is – it is NOT an `*exec.ExitError`; the code now classifies it with
+    `errors.As` and returns it as an ordinary error;
+  * `Wait` returns after the goroutine copying the child's stdout has seen EOF, i.e. after EVERY holder
+    of the pipe's write end (the child and whoever inherited it) has closed it – but at most `WaitDelay`
+    after the FIRST of: the context's deadline (then the child is killed as well), or the child's own
+    exit (`awaitGoroutines` starts the timer when `Process.Wait` has returned). When the delay expires
+    the pipes are closed by force; if the child had exited successfully on its own the error is
+    `exec.ErrWaitDelay`, otherwise the child's `*exec.ExitError` is kept;
+  * if the deadline has passed when `Output()` returns, the result is `("", err)` with a nil `err`
+    replaced by `ctx.Err()`: never a success after the deadline;
   * a context whose timeout is `0` is already expired: `Start` returns `ctx.Err()` without starting anything.
+
+  History: before the fixes a start error PANICKED (unchecked `err.(*exec.ExitError)`) and, with
+  `WaitDelay == 0`, a descendant holding the pipe blocked the call for as long as it pleased.
 -/
 import Fan2go.Model.Perm
 namespace Fan2go
@@ -60,16 +70,19 @@ def Beh.stdout : Beh → Option String
   | _ => none
 
 structure ExecOut where
-  /-- `.ok (.ok s)` ⇔ `(s, nil)`; `.ok (.error _)` ⇔ `("", err)`; `.panic site` ⇔ the goroutine panics.
-      For `boundedBy = none` this is the value returned IF the pipe is ever released. -/
+  /-- `.ok (.ok s)` ⇔ `(s, nil)`; `.ok (.error _)` ⇔ `("", err)`; `.panic site` ⇔ the goroutine panics. -/
   res : Res (Except String String)
   /-- `cmd.Output()` was reached (the code tried to start the executable) -/
   attempted : Bool
   /-- a process was actually started from the executable -/
   ran : Bool
-  /-- upper bound (ms of model time) on the duration of the call; `none` = may block indefinitely -/
+  /-- upper bound (ms of model time) on the duration of the call; `none` = may block indefinitely
+      (no longer produced by the model since `cmd.WaitDelay` is set) -/
   boundedBy : Option Nat
   deriving Repr, DecidableEq, Inhabited
+
+/-- `const cmdWaitDelay = 200 * time.Millisecond` -/
+def cmdWaitDelayMs : Nat := 200
 
 /-- the part of `SafeCmdExecution` after the permission check has passed -/
 def runCmd (beh : Beh) (timeout : Nat) : ExecOut :=
@@ -79,35 +92,41 @@ def runCmd (beh : Beh) (timeout : Nat) : ExecOut :=
   else
   match beh with
   | .startError =>
-    -- err is a *fs.PathError; ctx not expired; `err != nil` → `err.(*exec.ExitError)` panics
-    { res := .panic "type-assertion", attempted := true, ran := false, boundedBy := some 0 }
+    -- err is a *fs.PathError; ctx not expired; `errors.As(err, &exitError)` is false → warning, return "", err
+    { res := .ok (.error "fork/exec"), attempted := true, ran := false, boundedBy := some 0 }
   | .exits code out =>
     if code = 0 then
       { res := .ok (.ok (trimNl out)), attempted := true, ran := true, boundedBy := some timeout }
     else
-      -- *exec.ExitError: assertion holds; output discarded
+      -- *exec.ExitError; output discarded
       { res := .ok (.error "exit status"), attempted := true, ran := true, boundedBy := some timeout }
   | .killedBySignal _ =>
     { res := .ok (.error "signal"), attempted := true, ran := true, boundedBy := some timeout }
   | .outlivesDeadline orphan =>
-    -- killed at the deadline (Process.Wait → *exec.ExitError "signal: killed"); Wait then waits for EOF
-    -- on the pipe; afterwards `ctx.Err() == DeadlineExceeded` → return "", err
+    -- killed at the deadline (Process.Wait → *exec.ExitError "signal: killed"); Wait then waits for EOF on
+    -- the pipe, at most WaitDelay; afterwards `ctx.Err() == DeadlineExceeded` → return "", err
     { res := .ok (.error "signal: killed"), attempted := true, ran := true,
       boundedBy := match orphan with
         | none => some timeout
-        | some (.ms h) => some (max timeout h)
-        | some .forever => none }
+        | some (.ms h) => some (min (max timeout h) (timeout + cmdWaitDelayMs))
+        | some .forever => some (timeout + cmdWaitDelayMs) }
   | .grandchildHoldsStdout out hold =>
+    -- the child has exited 0 at once: the WaitDelay timer runs from THEN, not from the deadline
     match hold with
     | .ms h =>
-      if h < timeout then
-        { res := .ok (.ok (trimNl out)), attempted := true, ran := true, boundedBy := some h }
+      if h < cmdWaitDelayMs then
+        if h < timeout then
+          { res := .ok (.ok (trimNl out)), attempted := true, ran := true, boundedBy := some h }
+        else
+          -- released after the deadline: Output() = (out, nil), `err = ctx.Err()` → return "", err
+          { res := .ok (.error "context deadline exceeded"), attempted := true, ran := true, boundedBy := some h }
       else
-        -- Output() returns (out, nil) at time h > deadline; then `ctx.Err() == DeadlineExceeded`
-        -- → `return "", err` with err == nil: an empty string and NO error, late.
-        { res := .ok (.ok ""), attempted := true, ran := true, boundedBy := some h }
+        -- pipes closed by force after WaitDelay: exec.ErrWaitDelay (whether or not the deadline has passed)
+        { res := .ok (.error "exec: WaitDelay expired before I/O complete"), attempted := true, ran := true,
+          boundedBy := some cmdWaitDelayMs }
     | .forever =>
-      { res := .ok (.ok ""), attempted := true, ran := true, boundedBy := none }
+      { res := .ok (.error "exec: WaitDelay expired before I/O complete"), attempted := true, ran := true,
+        boundedBy := some cmdWaitDelayMs }
 
 /-- `util.SafeCmdExecution(executable, args, timeout)` given the outcome `perm` of
     `CheckFilePermissionsForExecution(executable)` evaluated AT THIS CALL. -/
